@@ -8,6 +8,7 @@ use simcore::driver::{self, Family};
 fn family(prop: &str) -> Option<&'static Family> {
     match prop {
         "C01" | "C02" | "C03" | "C04" => Some(&simcore::props::FAMILY),
+        "C05" | "C07" | "C10" | "C11" => Some(&simcore::vmprops::FAMILY),
         _ => None,
     }
 }
